@@ -272,6 +272,28 @@ def run_session(rundir: str, spec: dict) -> dict:
             w.insert_attestation(BlobAttestation(det_bytes("blob:" + name, size)),
                                  hashlib.sha1(name.encode()).digest(), BlobKey(det_bytes("key:" + name, 96)),  # noqa: S324
                                  ID_FORMAT)
+        elif kind == "legacy":
+            # ("legacy", [names], size): not library code - fabricate the file a version-1 AttestationsDB left behind
+            # (schema of get_schema(1): no id_format column, option.database_version = '1'), so that the next
+            # session exercises the upgrade path of check_database.  The expected record is the upgraded one.
+            _, names, size = op
+            import sqlite3
+            _, _, wallet_path = paths(rundir)
+            os.makedirs(os.path.dirname(wallet_path), exist_ok=True)
+            con = sqlite3.connect(wallet_path)
+            con.execute("PRAGMA page_size = 8192")
+            con.execute("PRAGMA journal_mode = WAL")
+            con.executescript("CREATE TABLE attestations(hash BLOB, blob LONGBLOB, key MEDIUMBLOB, PRIMARY KEY (hash));"
+                              "CREATE TABLE option(key TEXT PRIMARY KEY, value BLOB);"
+                              "INSERT INTO option(key, value) VALUES('database_version', '1');")
+            for name in names:
+                row = [hashlib.sha1(name.encode()).digest(), det_bytes("blob:" + name, size),  # noqa: S324
+                       det_bytes("key:" + name, 96)]
+                log.ev(e="B", t="attestations", row=[hx(c) for c in [*row, ID_FORMAT.encode()]])
+                con.execute("INSERT INTO attestations (hash, blob, key) VALUES(?,?,?)", row)
+                con.commit()
+                log.ev(e="A")
+            con.close()
         else:
             raise ValueError(op)
 
